@@ -104,6 +104,31 @@ theorem cpi_matches_client (pid : Key) (p : Acct) (hp : p.key = pid) (s : SetSha
     rw [cpiMetas_eq_client pid s sv hty] at hm
     exact clientMetas_flags pid s _ m hm
 
+/-- **The CPI view is independent of the runtime flags of the supplied infos.** The decoded set the
+CPI is built from has the live `is_signer` / `is_writable` of every account as an input (the fields of
+`Acct` in the leaves of `sv`); replacing them by ANY other values (`reflag g`, `g` arbitrary — e.g. the
+caller's fee payer, signer and writable in the outer transaction, sitting in a read-only slot) changes
+neither the CPI metas (keys, order, flags: still exactly the client metas of the denoted value), nor the
+number and keys of the infos. So a `write_account_metas` that copies a flag from the supplied info is
+a violation for every slot whose static meta does not have that flag. -/
+theorem cpi_independent_of_runtime_flags (pid : Key) (p : Acct) (hp : p.key = pid) (s : SetShape)
+    (sv : SetVal) (hty : svTyped s sv = true) (g : Acct → Bool × Bool) :
+    cpiMetas pid s (reflag g s sv) = cpiMetas pid s sv ∧
+    cpiMetas pid s (reflag g s sv) = clientMetas pid s (toClient s sv) ∧
+    (∀ infos infos', cpiInfos (some p) s sv = .ok infos → cpiInfos (some p) s (reflag g s sv) = .ok infos' →
+      infos'.map (·.key) = infos.map (·.key)) := by
+  obtain ⟨hty', hcl⟩ := reflag_spec g s sv hty
+  have h1 := cpiMetas_eq_client pid s sv hty
+  have h2 := cpiMetas_eq_client pid s _ hty'
+  rw [hcl] at h2
+  refine ⟨by rw [h1, h2], h2, ?_⟩
+  intro infos infos' hi hi'
+  obtain ⟨l, hl, hk⟩ := cpiInfos_some p s sv hty
+  obtain ⟨l', hl', hk'⟩ := cpiInfos_some p s _ hty'
+  rw [hl] at hi; rw [hl'] at hi'
+  cases hi; cases hi'
+  rw [hk, hk', hp, h1, h2]
+
 /-- What `CpiBuilder::invoke_signed` hands to the runtime, for every shape whose `AccountLen` has a
 `HandleCpiArray` impl: the client metas, as many infos, and a declared
 array length that is met exactly for fixed-size sets and is 64 (≥ what is written) for dynamic ones. -/
@@ -256,6 +281,11 @@ example : splitPhase .decode [] [[], [.decode], [.run]] [7, 2, 9] = [[2]] ∧
     splitPhase .run [] [[], [.decode], [.run]] [7, 2, 9] = [[9]] ∧
     splitPhase .validate [] [[], [.decode], [.run]] [7, 2, 9] = [] ∧
     splitPhase .run [.run] [[], [.decode], []] [7, 2, 9] = [[7, 2, 9]] := by decide
+
+/-- a signer + writable account (the fee payer) decoded into a plain read-only slot: the CPI meta stays `0/0` -/
+example : cpiMetas [9] (.single false false none []) (.acct ⟨[1], true, true⟩) = [⟨[1], false, false⟩] ∧
+    reflag (fun _ => (true, true)) (.single false false none []) (.acct ⟨[1], false, false⟩) = .acct ⟨[1], true, true⟩ :=
+  ⟨rfl, rfl⟩
 
 /-- fixed-size vs dynamic declared lengths -/
 example : declaredLen (.struct [.arr 2 (.single false true none [.writable]), .opt (.single true false none [.signer])]) = some 3 ∧
